@@ -9,6 +9,7 @@ id = "C01"
 engine = "combinators"
 coq_imports = ["Model.Base", "Model.Events", "Model.Gherkin", "Model.Combinators", "Model.Stats", "Model.Pipeline",
                "Model.StatsSpec", "Check.StatsCase", "Check.C01Check"]
+also = ["C01b", "C01c"]   # what the writers are given (parser errors reach the stream) and which attempts are final
 case_type = "scase"
 model_name = "Pipeline.qrun (qfailed)"
 monitor_name = "C01Check.c01_ok (StatsSpec.spec_failed)"
